@@ -123,6 +123,9 @@ def apply_real(st, op, sink=None):
             k = list(k) if isinstance(k, tuple) else k
         return st.filter_exceptions(d, k)
     if name == 'peek':
+        if len(op) > 2:
+            # exc_types given as a list (the annotation says Sequence; the docstring mentions [] and ())
+            return st.peek(print_func=(sink.append if sink is not None else (lambda s: None)), interval=op[1], exc_types=[EXC[n] for n in op[2]])
         return st.peek(print_func=(sink.append if sink is not None else (lambda s: None)), interval=op[1])
     if name == 'head':
         return st.head(op[1])
@@ -265,7 +268,7 @@ def alphabet(n):
         ['filter_exceptions', 'Boom', None], ['filter_exceptions', None, 'Boom'], ['filter_exceptions', 'Exception', 'Boom'],
         ['filter_exceptions', None, None], ['filter_exceptions', ['ValueError', 'Boom'], 'LookupError'],
         ['filter_exceptions', [], ['KeyError'], 'as-lists'], ['filter_exceptions', ['ValueError', 'Boom'], [], 'as-lists'],
-        ['peek', 1],
+        ['peek', 1], ['peek', 3, ['ValueError', 'KeyError']], ['peek', 2, []],
         ['head', 1], ['head', 2], ['head', max(1, n)], ['head', big],
         ['tail', 1], ['tail', 2], ['tail', big],
         ['batch', 1], ['batch', 2], ['batch', big],
